@@ -3,12 +3,17 @@
 Logical EBPs are chosen here and serialised by the Coq-extracted Spec serialiser (ops ser.ebp.* of
 modelexec), so "well-formed" is what Spec/EbpSpec.v says.  Malformed inputs (C05 stream) are fidelity
 cases: they tie the model's panic / error behaviour to the code but decide nothing for C12."""
-import itertools
+import itertools, os
 import vlib
 from vlib import Case
 
 PROP = "C12"
-PROOF_FILES = ["Properties/C12.v"]
+# development aid: VERIF_EBP_GUARDED=1 compares against the model of the readers WITH notes/findings/C05-ebp.patch
+# (use together with VERIF_REPO=<a tree that has the patch>)
+GUARDED = os.environ.get("VERIF_EBP_GUARDED", "") not in ("", "0")
+READ = "ebp.readg" if GUARDED else "ebp.read"
+BUILD = "ebp.buildg" if GUARDED else "ebp.build"
+PROOF_FILES = ["Properties/C12.v", "Properties/C05_ebp.v"]
 NS = 10 ** 9
 E31 = 2 ** 31
 E32 = 2 ** 32
@@ -154,10 +159,10 @@ def gen_decode(rng, tier):
         if len(b) == 0:
             continue
         if wf:
-            out.append(Case("ebp.read " + vlib.hx(b), kind=kind, theorem=th, nontrivial=bool(nt)))
+            out.append(Case(READ + " " + vlib.hx(b), kind=kind, theorem=th, nontrivial=bool(nt)))
             valid.append(b)
         else:
-            out.append(Case("ebp.read " + vlib.hx(b), kind=kind + "-notwf", decides=False, nontrivial=False, theorem="fidelity"))
+            out.append(Case(READ + " " + vlib.hx(b), kind=kind + "-notwf", decides=False, nontrivial=False, theorem="fidelity"))
     return out, valid
 
 
@@ -165,7 +170,7 @@ def gen_malformed(rng, tier, valid):
     """the C05 stream restricted to the EBP readers: fidelity only"""
     out = []
     def add(b, kind):
-        out.append(Case("ebp.read " + vlib.hx(bytes(b)), kind=kind, decides=False, nontrivial=False, theorem="C05_read_ebp_panic_free"))
+        out.append(Case(READ + " " + vlib.hx(bytes(b)), kind=kind, decides=False, nontrivial=False, theorem="C05_read_ebp_panic_free"))
     for b in ([], [0xA9], [0xDF], [0x00], [0xA9, 0], [0xDF, 0], [0xA9, 1], [0xDF, 1], [0xA9, 0, 0xFF], [0x47, 0x1F, 0xFF]):
         add(b, "malformed-tiny")
     sample = rng.sample(valid, min(len(valid), 150 if tier == "quick" else 2000))
@@ -189,6 +194,12 @@ def gen_malformed(rng, tier, valid):
     for n in (8, 9, 40, 255, 256, 257, 300):
         add([0xDF, 0xFF, 0x45, 0x42, 0x50, 0x30, 0x10] + [0x80 | rng.randrange(128) for _ in range(max(0, n - 7))], "malformed-chain")
     add([0xDF] + [0xFF] * 299, "malformed-chain")
+    # the witnesses of C05_read_ebp_total_refuted / C05_grouping_loop_unrepaired_refuted (Proofs/EbpTotal.v)
+    for b in ([169, 1, 1], [169, 1, 32], [169, 1, 16], [169, 1, 8], [169, 9, 8, 0, 0, 0, 0, 1, 2], [223, 1, 69, 66, 80, 48, 1],
+              [223, 1, 69, 66, 80, 48, 32], [223, 1, 69, 66, 80, 48, 16], [223, 1, 69, 66, 80, 48, 8], [223, 2, 69, 66, 80, 48, 1, 128],
+              [223, 2, 69, 66, 80, 48, 16, 129], [223, 255, 255, 255, 255, 255, 144] + [129] * 249):
+        add(b, "c05-witness")
+    add([0xDF, 253, 0x45, 0x42, 0x50, 0x30, 0x11, 0x80] + [0x81] * 246 + [0x01, 0x55], "c05-index-wrap")
     return out
 
 
@@ -246,7 +257,7 @@ def gen_build(rng, tier):
                                 "[13 %d]" % hib(rng), "[12 %s]" % vlib.hx(rtail(rng, rng.choice([240, 250, 253, 255]))),
                                 "[9 %d]" % rng.randrange(0, 2 * HI), "[2 1]", "[5 1]"])
             steps.insert(rng.randrange(len(steps) + 1), extra)
-        out.append(Case(sp("ebp.build %d [%s]" % (fl, " ".join(steps))), kind=kind, decides=consistent,
+        out.append(Case(sp(BUILD + " %d [%s]" % (fl, " ".join(steps))), kind=kind, decides=consistent,
                         nontrivial=consistent and len(steps) > 0, theorem="C12_build_encode_decode" if consistent else "fidelity"))
     return out
 
@@ -300,7 +311,19 @@ def gen_time(rng, tier):
 
 def gen(rng, tier):
     dec, valid = gen_decode(rng, tier)
-    return dec + gen_build(rng, tier) + gen_time(rng, tier) + gen_malformed(rng, tier, valid)
+    cases = dec + gen_build(rng, tier) + gen_time(rng, tier) + gen_malformed(rng, tier, valid)
+    # Fidelity cases of the readers: the tree may or may not have notes/findings/C05-ebp.patch (F11).  Both variants are
+    # modelled (g = false / g = true, related by C05_read_ebp_patch_only_adds_error); the alternative answer is attached and
+    # the oracle accepts a tree that follows ONE of the two variants consistently.
+    if not GUARDED:
+        fid = [c for c in cases if not c.decides and c.line.split(" ")[0] in ("ebp.read", "ebp.build")]
+        alt = vlib.run_model([c.line.replace("ebp.read ", "ebp.readg ", 1).replace("ebp.build ", "ebp.buildg ", 1) for c in fid])
+        for c, a in zip(fid, alt):
+            c.note = "alt:" + a
+    return cases
+
+
+_variant = {"seen": None}
 
 
 def oracle(c, real, model):
@@ -313,6 +336,18 @@ def oracle(c, real, model):
             return "SetEBPTime/EBPTime did not return an instant: " + real
         if abs(got - t) > 1:
             return "EBPTime(SetEBPTime(t)) - t = %d ns (required: at most 1 ns)" % (got - t)
+        return ""
+    if not c.decides and c.note.startswith("alt:") and c.note[4:] != model:
+        # the two reader variants differ on this input
+        if real == model:
+            v = "as-is"
+        elif real == c.note[4:]:
+            v = "guard-patched"
+        else:
+            return "observed differs from both reader variants (as-is: %s; with C05-ebp.patch: %s)" % (model[:200], c.note[4:204])
+        if _variant["seen"] not in (None, v):
+            return "readers follow neither variant consistently (this case: %s, earlier: %s)" % (v, _variant["seen"])
+        _variant["seen"] = v
         return ""
     return None
 
@@ -334,7 +369,7 @@ def shrink(c):
         for t2 in (t // NS * NS + 999999999, LO + t % NS, LO + 999999999):
             if t2 != t and LO <= t2 < HI:
                 yield Case("ebp.time %s %d" % (f[1], t2), kind=c.kind, decides=c.decides, theorem=c.theorem)
-    elif f[0] == "ebp.build":
+    elif f[0] in ("ebp.build", "ebp.buildg"):
         # remove one field group at a time (a value together with its flag, so that a consistent script stays consistent)
         body = c.line[c.line.index("[") + 1:c.line.rindex("]")]
         steps = vlib.parse_val("[" + body + "]")
@@ -342,7 +377,7 @@ def shrink(c):
         for g in groups:
             rest = [s for s in steps if not (s[0] in g and (s[0] > 7 or s[1] == 1))]
             if len(rest) < len(steps):
-                yield Case(sp("ebp.build %s [%s]" % (f[1], " ".join(vlib.fmt_val(s) for s in rest))), kind=c.kind,
+                yield Case(sp(f[0] + " %s [%s]" % (f[1], " ".join(vlib.fmt_val(s) for s in rest))), kind=c.kind,
                            decides=c.decides, theorem=c.theorem)
 
 
